@@ -41,28 +41,34 @@ Example C10_examples :
 Proof. vm_compute. repeat split; reflexivity. Qed.
 
 (* ---- the geometry-faithful model: the footprint of a drained producer ----
-   In every state a history of one OwningIovec reaches in iovec/Geo.v (chunks, anchors and decisions computed), once the
-   consumer has drained every buffered slice no anchor is left: the iovec holds at most the chunk of its allocation cache,
-   whatever amount of data went through it (and C10_find_hint_size bounds that chunk's capacity by max(1 MiB, the
-   request rounded up to 4 KiB)).  This is the streaming footprint bound for consumers that drain everything, e.g. a
-   Decoder (which registers no placeholder); for an Encoder the slices behind the pending chunk header remain, and that
-   part of the bound stays measured by the harness. *)
+   In every state a history of one OwningIovec reaches in iovec/Geo.v (chunks, anchors and decisions computed), once no
+   slice is buffered every anchor that is left counts no slice (these are the anchors of anchored inputs that contributed
+   nothing since the last consume call); and a consume call -- of any count, zero included -- that leaves no slice behind
+   leaves no anchor at all: the iovec then holds at most the chunk of its allocation cache, whatever amount of data went
+   through it (C10_find_hint_size bounds that chunk's capacity by max(1 MiB, the request rounded up to 4 KiB)).  This is
+   the streaming footprint bound for consumers that drain everything with consume, e.g. behind a Decoder (which registers
+   no placeholder); for an Encoder the slices behind the pending chunk header remain, and that part of the bound stays
+   measured by the harness. *)
 From WP Require iovec.Geo iovec.GeoHistory iovec.GeoFootprint.
 Theorem C10_geo_drained_footprint ops h' g' xs :
   GeoHistory.g1run [] Geo.empty_iov ops = Some (h', g', xs) -> Geo.gslices g' = [] ->
-  Geo.ganchors g' = [] /\ Geo.holders g' = match Geo.gcache_ g' with Some k => [Geo.kchunk k] | None => [] end.
+  Forall (fun a => Geo.acount a = 0%N) (Geo.ganchors g').
 Proof. exact (GeoFootprint.geo_drained_footprint ops h' g' xs). Qed.
+Theorem C10_geo_consume_releases k g g' n : Geo.consume k g = Some (g', n) -> Geo.gslices g' = [] ->
+  Geo.ganchors g' = [] /\ Geo.holders g' = match Geo.gcache_ g' with Some k => [Geo.kchunk k] | None => [] end.
+Proof. exact (GeoFootprint.consume_releases k g g' n). Qed.
 Example C10_geo_example :
   match GeoHistory.g1run [] Geo.empty_iov
           [GeoHistory.HPushCopy (repeat 1%N 4000); GeoHistory.HAnchored (repeat 2%N 300); GeoHistory.HPushCopy (repeat 3%N 10);
-           GeoHistory.HRead 100000%N; GeoHistory.HPushCopy (repeat 1%N 4000); GeoHistory.HPushCopy (repeat 1%N 4000); GeoHistory.HConsume 5%N] with
-  | Some (h, g, _) => length h = 3 /\ Geo.gslices g = [] /\ Geo.holders g = [2]
+           GeoHistory.HRead 100000%N; GeoHistory.HAnchoredN [] 5000%N; GeoHistory.HPushCopy (repeat 1%N 4000); GeoHistory.HConsume 5%N] with
+  | Some (h, g, _) => length h = 2 /\ Geo.gslices g = [] /\ Geo.holders g = [1]
   | None => False
   end.
 Proof. vm_compute. repeat split; reflexivity. Qed.
 
 Print Assumptions C10_find_hint_size.
 Print Assumptions C10_geo_drained_footprint.
+Print Assumptions C10_geo_consume_releases.
 Print Assumptions C10_size_constants.
 Print Assumptions C10_live_iff_held.
 Print Assumptions C10_no_leak.
